@@ -33,6 +33,11 @@ def LObj.nPoints : LObj → Except Exc Nat
   | .single s => .ok s.points.length
   | .multi _ => .error .attributeError
 
+/-- `hasattr(landmarks_object, "n_points")` -/
+def LObj.hasNPoints : LObj → Bool
+  | .single _ => true
+  | .multi _ => false
+
 /-- `{"LJSON": landmarks_object}` -/
 def LObj.wrap : LObj → LObj
   | .single s => .multi [("LJSON", s)]
@@ -60,6 +65,34 @@ def takeEvery3 {α : Type} : List α → List α
   | a :: _ :: _ :: t => a :: takeEvery3 t
   | a :: _ => [a]
   | [] => []
+
+/-- `f[a::n]`: every n-th element, starting at index a (`fuel` ≥ length of the list) -/
+def everyNth {α : Type} (n : Nat) : Nat → List α → List α
+  | 0, _ => []
+  | _, [] => []
+  | fuel + 1, x :: t => x :: everyNth n fuel (t.drop (n - 1))
+
+def strideFrom {α : Type} (f : List α) (a n : Nat) : List α := everyNth n (f.length + 1) (f.drop a)
+
+/-- the heads and the tails of a list of rows (`none` as soon as one row is empty) -/
+def splitHeads {α : Type} : List (List α) → Option (List α × List (List α))
+  | [] => some ([], [])
+  | [] :: _ => none
+  | (x :: r) :: rest => match splitHeads rest with
+    | none => none
+    | some (hs, ts) => some (x :: hs, r :: ts)
+
+def transposeF {α : Type} : Nat → List (List α) → List (List α)
+  | 0, _ => []
+  | n + 1, rows => match splitHeads rows with
+    | none => []
+    | some (hs, ts) => hs :: transposeF n ts
+
+/-- `list(zip(*rows))`: the columns, as long as the shortest row (no rows: nothing) -/
+def transposeRows {α : Type} (rows : List (List α)) : List (List α) :=
+  match rows with
+  | [] => []
+  | r :: _ => transposeF r.length rows
 
 /-- `list(zip(a, b))` -/
 def zipRows2 {α : Type} (a b : List α) : List (List α) := List.zipWith (fun x y => [x, y]) a b
